@@ -68,6 +68,7 @@ thread_local! {
     static CURRENT: std::cell::RefCell<Option<Arc<Ledger>>> = const { std::cell::RefCell::new(None) };
 }
 
+pub fn current_ledger() -> Option<Arc<Ledger>> { CURRENT.try_with(|c| c.borrow().clone()).ok().flatten() }
 pub fn set_current_ledger(l: Option<Arc<Ledger>>) { let _ = CURRENT.try_with(|c| *c.borrow_mut() = l); }
 
 const CANARY: u64 = 0xC0FF_EE00_DEAD_BEA7;
